@@ -11,6 +11,8 @@ import AioftpModel.Driver.Logs
 import AioftpModel.Driver.Framing
 import AioftpModel.Driver.Throttle
 import AioftpModel.Driver.Transfer
+import AioftpModel.Driver.Counters
+import AioftpModel.Driver.PortPool
 
 open Codec Model Py
 
@@ -46,6 +48,8 @@ def handlePaths : List String → Option String
 /-- state of the stateful components -/
 structure DState where
   sess : DriverSession.DState := {}
+  sys : DriverCounters.DState := {}
+  pool : DriverPortPool.DState := {}
 
 /-- pure components: tokens after the component word → answer -/
 def handlePure : List String → Option String
@@ -58,6 +62,8 @@ def handlePure : List String → Option String
   | "framing" :: rest => DriverFraming.handleFraming rest
   | "throttle" :: rest => handleThrottle rest
   | "xfer" :: rest => DriverTransfer.handleTransfer rest
+  | "cnt" :: rest => DriverCounters.handleCnt rest
+  | "poolrun" :: rest => DriverPortPool.handlePortPool rest
   | _ => none
 
 def handle (st : DState) (line : String) : DState × String :=
@@ -66,6 +72,12 @@ def handle (st : DState) (line : String) : DState × String :=
   | "sess" :: rest =>
     let (s', r) := DriverSession.handle st.sess rest
     ({ st with sess := s' }, r.getD "bad-op")
+  | "sys" :: rest =>
+    let (s', r) := DriverCounters.handle st.sys rest
+    ({ st with sys := s' }, r.getD "bad-op")
+  | "pool" :: rest =>
+    let (s', r) := DriverPortPool.handle st.pool rest
+    ({ st with pool := s' }, r.getD "bad-op")
   | _ => (st, (handlePure toks).getD "bad-op")
 
 partial def loop (h : IO.FS.Stream) (out : IO.FS.Stream) (st : DState) : IO Unit := do
